@@ -384,8 +384,10 @@ TSearch ==
             \* the evaluator falls back to the legacy index and fails with LexNotEnabled when there is none: accepted as
             \* "no hits" (no listed property forbids it) unless a committed document does contain the single word asked for.
             IF ResErr("LexNotEnabled")
-              THEN Chk("search.recall", (Has(a, "single") /\ Committed /\ ~Cut(a) /\ ~Enforce(a) /\ ~Has(a, "uri")) =>
+              THEN /\ Chk("search.recall", (Has(a, "single") /\ Committed /\ ~Cut(a) /\ ~Enforce(a) /\ ~Has(a, "uri")) =>
                         {i \in 0..(Len(tab) - 1) : tab[i + 1].st = "active" /\ a.single \in AttrsOf(tab, i).atoms} = {})
+                   \* C28: "no hits" from this handle although another handle found some for the same query on the same table
+                   /\ Chk("search.same", (Has(a, "qid") /\ a.qid \in DOMAIN qhist /\ qhist[a.qid].tab = TabKey(tab)) => qhist[a.qid].res = {})
               ELSE Chk("search.error", ResErr("InvalidQuery") /\ (NeedTenant(a) \/ ~r.ok))
        ELSE LET v == Ev.res.val
                 hits == v.hits
